@@ -149,6 +149,7 @@ def gen_c14(seed, tier):
     desc, rng = gen_history(seed, tier, n_ops=(0, 5))
     desc["ops"][-1]["cfg"]["max_errors"] = 0
     desc["ops"][-1]["cfg"]["retry"] = None
+    desc["ops"][-1]["cfg"]["transform"] = rng.choice([None, None, "extra-call", "wrap-output", "both"])
     return desc
 
 
